@@ -20,6 +20,11 @@
 (* Named deviation "mode_from_flag" (the code before this round's fix): every  *)
 (* call reads the caller's mode from the flag as it is at that moment - which  *)
 (* another call of the runtime may have forced - and puts back what it read.   *)
+(* The callers may hold different descriptor numbers of the one socket (dup,   *)
+(* TcpStream::try_clone: a handle for the reader, one for the writer); the     *)
+(* flag belongs to the open file description they share.  Named deviation      *)
+(* "keyed_by_number" (the first version of this round's fix): the calls in     *)
+(* progress are counted per descriptor number.                                 *)
 (* The descriptor may also be closed (by a third party, through the hooked     *)
 (* close) while calls are parked on it - the usual way to get rid of a reader. *)
 (* The calls then come back with the kernel's EBADF; putting the mode back     *)
@@ -30,10 +35,13 @@ EXTENDS Naturals, FiniteSets, TLC
 
 CONSTANTS Callers, MaxEnters, Deviations
 Dev(d) == d \in Deviations
+\* the descriptor number a caller uses: caller "r" has its own, the others share the second one
+Num(c) == IF c = "r" THEN 1 ELSE 2
 
 VARIABLES userNb,   \* the mode the caller gave the descriptor (TRUE = non-blocking); it does not change
           flag,     \* O_NONBLOCK of the descriptor right now
           forced,   \* number of calls in progress that have forced the descriptor non-blocking
+          forcedN,  \* the same, per descriptor number
           pc,       \* [Callers -> "idle" | "looked" | "in" | "wait"]
           believes, \* [Callers -> what the call in progress took for the caller's mode: TRUE = blocking]
           enters,   \* [Callers -> calls made]
@@ -41,9 +49,9 @@ VARIABLES userNb,   \* the mode the caller gave the descriptor (TRUE = non-block
           askedBlk, \* the kernel was asked while the descriptor was blocking (the thread would have parked there)
           open,     \* the descriptor is open
           died      \* the process aborted
-vars == <<userNb, flag, forced, pc, believes, enters, last, askedBlk, open, died>>
+vars == <<userNb, flag, forced, forcedN, pc, believes, enters, last, askedBlk, open, died>>
 
-Init == /\ userNb \in BOOLEAN /\ flag = userNb /\ forced = 0
+Init == /\ userNb \in BOOLEAN /\ flag = userNb /\ forced = 0 /\ forcedN = [n \in 1..2 |-> 0]
         /\ pc = [c \in Callers |-> "idle"] /\ believes = [c \in Callers |-> FALSE]
         /\ enters = [c \in Callers |-> 0] /\ last = [c \in Callers |-> "none"] /\ askedBlk = FALSE
         /\ open = TRUE /\ died = FALSE
@@ -51,14 +59,17 @@ Init == /\ userNb \in BOOLEAN /\ flag = userNb /\ forced = 0
 \* is_blocking: what mode did the caller choose?
 Look(c) ==
   /\ pc[c] = "idle" /\ enters[c] < MaxEnters /\ open /\ ~died
-  /\ believes' = [believes EXCEPT ![c] = IF Dev("mode_from_flag") THEN ~flag ELSE (~flag \/ forced > 0)]
+  /\ believes' = [believes EXCEPT ![c] = IF Dev("mode_from_flag") THEN ~flag
+                                          ELSE IF Dev("keyed_by_number") THEN (~flag \/ forcedN[Num(c)] > 0)
+                                          ELSE (~flag \/ forced > 0)]
   /\ pc' = [pc EXCEPT ![c] = "looked"] /\ enters' = [enters EXCEPT ![c] = @ + 1]
-  /\ UNCHANGED <<userNb, flag, forced, last, askedBlk, open, died>>
+  /\ UNCHANGED <<userNb, flag, forced, forcedN, last, askedBlk, open, died>>
 \* set_non_blocking, if the caller's mode is blocking
 Enter(c) ==
   /\ pc[c] = "looked" /\ ~died
   /\ flag' = IF believes[c] THEN TRUE ELSE flag
   /\ forced' = IF believes[c] /\ ~Dev("mode_from_flag") THEN forced + 1 ELSE forced
+  /\ forcedN' = IF believes[c] /\ ~Dev("mode_from_flag") THEN [forcedN EXCEPT ![Num(c)] = @ + 1] ELSE forcedN
   /\ pc' = [pc EXCEPT ![c] = "in"]
   \* (forcing the flag on a descriptor closed since the look fails just like putting it back)
   /\ died' = (died \/ (believes[c] /\ ~open /\ Dev("restore_asserts")))
@@ -68,9 +79,13 @@ Leave(c, r) ==
   /\ pc' = [pc EXCEPT ![c] = "idle"] /\ last' = [last EXCEPT ![c] = r]
   /\ IF believes[c]
      THEN IF Dev("mode_from_flag")
-          THEN flag' = FALSE /\ UNCHANGED forced
-          ELSE forced' = (IF forced > 0 THEN forced - 1 ELSE 0) /\ flag' = (forced - 1 > 0)
-     ELSE UNCHANGED <<flag, forced>>
+          THEN flag' = FALSE /\ UNCHANGED <<forced, forcedN>>
+          ELSE /\ forced' = (IF forced > 0 THEN forced - 1 ELSE 0)
+               /\ forcedN' = [forcedN EXCEPT ![Num(c)] = IF @ > 0 THEN @ - 1 ELSE 0]
+               \* the last call puts the flag back: the last one on the description - or (deviation) on its number
+               /\ flag' = IF Dev("keyed_by_number") THEN (IF forcedN[Num(c)] - 1 > 0 THEN flag ELSE FALSE)
+                          ELSE (forced - 1 > 0)
+     ELSE UNCHANGED <<flag, forced, forcedN>>
   \* putting the mode back on a descriptor that has been closed meanwhile fails
   /\ died' = (died \/ (believes[c] /\ ~open /\ Dev("restore_asserts")))
 
@@ -82,16 +97,16 @@ Ask(c, resp) ==
   /\ CASE resp = "ok" -> Leave(c, "ok")
        [] resp = "ebadf" -> Leave(c, "ebadf")
        [] resp = "wouldblock" ->
-            IF believes[c] THEN pc' = [pc EXCEPT ![c] = "wait"] /\ UNCHANGED <<flag, forced, last, died>>
+            IF believes[c] THEN pc' = [pc EXCEPT ![c] = "wait"] /\ UNCHANGED <<flag, forced, forcedN, last, died>>
             ELSE Leave(c, "eagain_at_once")
   /\ UNCHANGED <<userNb, believes, enters, open>>
 \* the wait for readiness ends: ready (ask again) or the time limit
 Wake(c) == /\ pc[c] = "wait" /\ ~died /\ pc' = [pc EXCEPT ![c] = "in"]
-           /\ UNCHANGED <<userNb, flag, forced, believes, enters, last, askedBlk, open, died>>
+           /\ UNCHANGED <<userNb, flag, forced, forcedN, believes, enters, last, askedBlk, open, died>>
 Timeout(c) == /\ pc[c] = "wait" /\ ~died /\ Leave(c, "eagain_timeout")
               /\ UNCHANGED <<userNb, believes, enters, askedBlk, open>>
 \* the hooked close: the runtime forgets what it knew about the number, the descriptor is gone
-CloseFd == /\ open /\ ~died /\ open' = FALSE /\ forced' = 0 /\ flag' = FALSE
+CloseFd == /\ open /\ ~died /\ open' = FALSE /\ forced' = 0 /\ forcedN' = [n \in 1..2 |-> 0] /\ flag' = FALSE
            /\ UNCHANGED <<userNb, pc, believes, enters, last, askedBlk, died>>
 
 Next == \/ \E c \in Callers : Look(c) \/ Enter(c) \/ Wake(c) \/ Timeout(c) \/ \E resp \in {"ok", "wouldblock", "ebadf"} : Ask(c, resp)
